@@ -99,6 +99,9 @@ func init() {
 			if t.extends != nil {
 				root = t.extends.Root
 			}
+			for parent := t.extends; parent != nil; parent = parent.extends {
+				root = parent.Root // walk the whole extends chain, like Execute and include do
+			}
 
 			if a.NumOfArguments() > 1 {
 				c := a.runtime.context
@@ -128,6 +131,9 @@ func init() {
 			root := t.Root
 			if t.extends != nil {
 				root = t.extends.Root
+			}
+			for parent := t.extends; parent != nil; parent = parent.extends {
+				root = parent.Root // walk the whole extends chain, like Execute and include do
 			}
 
 			if a.NumOfArguments() > 1 {
